@@ -88,6 +88,7 @@ def run(tier):
     # ---- unbound name -> Err
     fn = "expr::Expr::run"
     M = absint.Machine(P, max_depth=4, opaque={"context::Context::get_expr"})
+    M.inline_loopy_from_root = True
     paths = M.explore(fn, M.arg_unknowns(fn))
     idp = [p for p in paths if L.dom1(p.state, "self*#d") == 0]
     none_paths = [p for p in idp if any(isinstance(s, tuple) and s[0] == 's' and s[1].startswith("get_expr(") and s[1].endswith("#d") and sx.dom_size(d) == 1 and sx.dom_min(d) == 0 for s, d in p.state.doms.items())]
